@@ -241,8 +241,9 @@ def alts(t):
     return list(args(t)) if origin(t) is Union else [t]
 
 
-def witnessed(t, values, enclosing_empty=False, path="$", top=True):
-    """C05 tightness, walked in lock-step with the observed values. Raises NotTight."""
+def witnessed(t, values, enclosing_empty=False, path="$", top=True, also_witness=()):
+    """C05 tightness, walked in lock-step with the observed values. Raises NotTight.
+    also_witness: further values that count for the inhabitation of an alternative (not for coverage)."""
     if t is Any:
         if not values and (top or enclosing_empty):
             return
@@ -262,6 +263,8 @@ def witnessed(t, values, enclosing_empty=False, path="$", top=True):
                 raise NotTight("any-without-empty", f"{sub}: Any alternative without an empty enclosing container")
             continue
         inh = [v for v in values if head_exact(v, a)]
+        if not inh and any(head_exact(v, a) for v in also_witness):
+            continue
         if not inh:
             raise NotTight("uninhabited-alternative", f"{sub}: alternative {show(a)} is not inhabited by any observed value")
         if is_anon_td(a):
@@ -282,7 +285,11 @@ def witnessed(t, values, enclosing_empty=False, path="$", top=True):
             witnessed(args(a)[0], [e for v in inh for e in v], any(len(v) == 0 for v in inh), sub + "[]", False)
         elif og in (dict, collections.defaultdict):
             ee = any(len(v) == 0 for v in inh)
-            witnessed(args(a)[0], [k for v in inh for k in v.keys()], ee, sub + "{k}", False)
+            # a dict whose keys are all strings is, by design, described through its keys AS STRINGS (TypedDict fields, and
+            # `Dict[str, ...]` when a TypedDict is turned back into a Dict): a key that is an instance of a str subclass
+            # witnesses the alternative `str` there
+            as_str = [str.__str__(k) for v in inh if all(isinstance(x, str) for x in v.keys()) for k in v.keys() if type(k) is not str]
+            witnessed(args(a)[0], [k for v in inh for k in v.keys()], ee, sub + "{k}", False, as_str)
             witnessed(args(a)[1], [x for v in inh for x in v.values()], ee, sub + "{v}", False)
         elif og is tuple:
             for j, et in enumerate(args(a)):
